@@ -109,6 +109,36 @@ def build(ctx, tier):
         if ex != 2047:
             val = Fraction(sg * man) * Fraction(2) ** -1074 if ex == 0 else Fraction(sg * (man | (1 << 52))) * Fraction(2) ** (ex - 1075)
             out.append(('mpf set_d %x 0 %x' % (rp, db), (13, val, None, 0, 0, 0, 0, rp)))
+        # mpf_set_str: digit strings shorter and much longer than the destination, radix point anywhere, exponents small and so
+        # large that base^|exp| needs many more limbs than the destination (it is then built by repeated truncated squarings)
+        base = rng.choice([10, 10, 10, 10, 2, 16, 7, 36, 62])
+        nd = rng.choice([1, 1, 2, 5, 20, 40, 80, 400])
+        DG = '0123456789abcdefghijklmnopqrstuvwxyz' if base <= 36 else '0123456789ABCDEFGHIJKLMNOPQRSTUVWXYZabcdefghijklmnopqrstuvwxyz'
+        ds = [rng.randrange(base) for _ in range(nd)]
+        if rng.random() < 0.3: ds = [rng.choice([1, base - 1])] + [0] * (nd - 1)
+        if ds[0] == 0: ds[0] = 1
+        pt = rng.choice([None, None, 0, nd, rng.randrange(0, nd + 1)])
+        ex = rng.choice([None, 0, 1, -1, rng.randrange(-40, 40), rng.randrange(-400, 400), rng.randrange(-6000, 6000), rng.randrange(-6000, 6000),
+                         rng.choice([1, -1]) * rng.choice([468, 470, 930, 932, 1700, 1702, 3739])])
+        txt = ''.join(DG[d] for d in ds)
+        if pt is not None: txt = txt[:pt] + '.' + txt[pt:]
+        v = Fraction(0)
+        for d in ds: v = v * base + d
+        eff = 0
+        if pt is not None: eff = -(nd - pt)
+        if ex is not None:
+            def inbase(n):
+                s = ''
+                while True:
+                    s = DG[n % base] + s; n //= base
+                    if n == 0: return s
+            txt += ('e' if base <= 10 else '@') + ('-' if ex < 0 else rng.choice(['', '+'])) + inbase(abs(ex))
+            eff += ex
+        sg = rng.choice(['', '', '-'])
+        if sg: v = -v
+        # the conversion is (digits as an integer) times or divided by base^|effective exponent|: those two are "the operands"
+        # of the exactness clause (exact when they and the value fit in p bits), the accuracy clause is about the value itself
+        out.append(('mpf set_str %x 0 %x %s' % (rp, base, hb((sg + txt).encode())), (3 if eff >= 0 else 4, v, Fraction(base) ** abs(eff), 0, 0, 0, 0, rp)))
     return out
 
 def cases(ctx, tier):
@@ -183,6 +213,10 @@ def extra(ctx):
         t = o.split()
         fn = ln.split()[1]
         hist[fn] = hist.get(fn, 0) + 1
+        if fn == 'set_str':
+            if t[:1] != ['0']:
+                bad.append((ln, o, 'mpf_set_str rejects a valid string')); cert.append(None); continue
+            t = t[1:]
         if len(t) != 4 or not all(all(c in '0123456789abcdef-' for c in x) for x in t):
             bad.append((ln, o, 'crash, malformed result or format rule broken')); cert.append(None); continue
         size = int(t[0], 16) if not t[0].startswith('-') else -int(t[0][1:], 16)
